@@ -101,6 +101,23 @@ CLAIMS['C19'] = dict(
     note='Trusted: rustc MIR, f32 monotonicity of products and 1 - x on [0,1].',
     ref='DESIGN.md §3 C19')
 
+CLAIMS['C06'] = dict(
+    technique='dispatch-table extraction from MIR (path-sensitive over the token match), dominance on evaluation order, panic-edge inventory',
+    text='Narrow claim: the structural clauses of the documented STACK CFI semantics, for every rule program. The operator table of eval_cfi_expr is extracted and compared with the documentation (which wrapping operation, lhs/rhs order with rhs popped first, '
+         '/ % fail on zero, @ fails unless rhs is a non-zero power of two and computes lhs & !(rhs-1), ^ goes through the walker with ?, .cfa pushes cfa?, .undef fails, result needs exactly one value); the evaluator has no non-wrapping arithmetic and no undischarged panic edge; '
+         'the CFA is evaluated first with cfa = None and feeds set_cfa, .cfa and .ra are mandatory, every other rule either sets or clears its register, and walk_frame applies only delta records at or below the address, in address order. '
+         'It does not compute results: agreement with a reference interpreter over a program space is behavioural and not decided.',
+    note='Trusted: rustc MIR, u64::wrapping_* semantics, BTreeMap insertion order semantics for overriding rules.',
+    ref='DESIGN.md §3 C06')
+CLAIMS['C07'] = dict(
+    technique='dispatch-table extraction, register-name alphabet dataflow against the x86 context table, dominance, panic-edge inventory',
+    text='Narrow claim: structural clauses of the STACK WIN semantics. The operator table of eval_win_expr (same rules as C06 on u32 plus `=` and `.undef`), the six predefined constants and their sources, the `@` search-start rule, '
+         'the output alphabet (only eip esp ebp ebx esi edi reported), clearing before evaluation and framedata-before-fpo priority are extracted and checked; every register name handed to the FrameWalker interface must be a name the x86 context knows. '
+         'The last rule exposes a genuine defect (names are cleared with a `$` prefix, so nothing is cleared and callee registers are forwarded); it is a recorded known finding because the obvious repair changes two existing CLI snapshots. '
+         'Two overflow panics in this code were repaired in /repo. Numeric results are not computed.',
+    note='Trusted: rustc MIR, u32::wrapping_* semantics. Table entries marked ASSUMPTION (32-bit callee registers) apply to the FPO arithmetic.',
+    ref='DESIGN.md §3 C07')
+
 NOT_YET = {}
 NA = {
     'C14': 'every clause relates values of the result to values of the dump (which thread, which context, which address after masking); no clause has a structural form that would not also fire on behaviour-preserving rewrites, so static analysis does not apply; its panic-freedom is covered under C03',
